@@ -139,6 +139,7 @@ def build_trace(instances, results, profile):
         prev = 0
         nsteps = 0
         base = 0
+        inner = []
         ncand = 0
         nenum = 0
         status = "missing"
@@ -156,6 +157,8 @@ def build_trace(instances, results, profile):
                 idx["out"] = len(trace)
             elif e["ev"] == "panic":
                 trace.append({"ev": "panic", "li": li, "msg": e["msg"]})
+            elif e["ev"] == "inner":
+                inner.append(e["call"])
             elif e["ev"] == "optrerun":
                 trace.append({"ev": "optrerun", "li": li, "pi": idx["transopt"], "ok": e["ok"], "tr": e["tr"],
                               "msg": e.get("msg", "")})
@@ -182,7 +185,8 @@ def build_trace(instances, results, profile):
             trace.append(s)
         trace.append({"ev": "end", "li": li, "status": status, "profile": profile, "name": I["name"]})
         meta.append({"name": I["name"], "first": li, "last": len(trace), "status": status,
-                     "wall_ms": wall, "nsteps": nsteps, "profile": I["profile"], "ncand": ncand, "nenum": nenum})
+                     "wall_ms": wall, "nsteps": nsteps, "profile": I["profile"], "ncand": ncand, "nenum": nenum,
+                     "inner": inner})
     for t in trace:
         common.check_ints(t)
     return trace, meta
@@ -220,6 +224,9 @@ def corpus(tier, seed, profile="release", n=None, per_instance_timeout=60, chunk
         tp = os.path.join(d, "trace_%d.ndjson" % (c // chunk))
         common.write_ndjson(tp + ".tmp", trace)
         os.replace(tp + ".tmp", tp)
+        calls_path = os.path.join(d, "inner_%d.json" % (c // chunk))
+        with open(calls_path, "w") as f:
+            json.dump({m["name"]: m.pop("inner") for m in meta}, f)
         for m in meta:
             m["chunk"] = c // chunk
         chunks.append(tp)
